@@ -204,7 +204,7 @@ func runLLMNR(w *rt.World, res *hx.Result, realServer, realClient bool) *hx.Viol
 	nClients := 1 + hx.G(maxClients)
 	chain := hx.G(4) // 3: the first handler closes the server from inside the handler goroutine when it sees the poison name
 	stopMode := hx.F(8)
-	stopAt := [...]int64{0, 0, 0, 0, 1e6, 50e6, 1e9, 2500e6}[stopMode]
+	stopAt := [...]int64{0, 0, 0, 0, 0, 50e6, 1e9, 2500e6}[stopMode] // modes 3 and 4: at time 0, racing with ListenAndServe
 	stopTwice := hx.F(3) == 0
 	clientCloseMode := hx.F(6)
 	strayMode := hx.F(4)
@@ -344,7 +344,7 @@ func runLLMNR(w *rt.World, res *hx.Result, realServer, realClient bool) *hx.Viol
 	// clients start once everybody who should hear them has joined the group (a query sent into the void
 	// is nobody's bug); the close-at-time-zero scenarios deliberately skip the wait for the real server
 	wantMembers := nSniff
-	if realServer && !(stopMode == 3) {
+	if realServer && !(stopMode == 3 || stopMode == 4) {
 		wantMembers++
 	}
 	for i := 0; i < 2000 && simnet.GroupMembers(5355) < wantMembers; i++ {
